@@ -34,6 +34,7 @@ import (
 type Case struct {
 	Family string `json:"family"`
 	Index  int    `json:"index"`
+	Tier   string `json:"tier"` // the family spaces differ between the tiers
 }
 
 // doc is one generated document with its expectations.
@@ -115,9 +116,9 @@ func families(quick bool) []family {
 	add := func(name string, dims []int, gen func(d []int, idx int) doc) {
 		fs = append(fs, family{name, prod(dims...), func(i int) doc { return gen(radix(i, dims...), i) }})
 	}
-	ns := len(styles8)
+	ns, na := len(styles8), xmlgen.NumArrangements
 	if quick {
-		ns = 1
+		ns, na = 1, 1
 	}
 
 	// ---------------------------------------------------------- presence lattices
@@ -131,9 +132,9 @@ func families(quick bool) []family {
 		e, v := b.Node(xmlgen.NodeCfg{Attrs: uint(d[0]), Tags: 2 * d[1]})
 		return single(b, obj(xmlgen.KindNode, e, v), styles8[d[2]])
 	})
-	add("way", []int{1 << xmlgen.NumWayAttrs, 4, 2, 3, 2, ns}, func(d []int, _ int) doc {
+	add("way", []int{1 << xmlgen.NumWayAttrs, 4, 2, 3, 2, ns, na}, func(d []int, _ int) doc {
 		b := xmlgen.NewB(d[0])
-		e, v := b.Way(xmlgen.WayCfg{Attrs: uint(d[0]), Nds: ndChoices[d[1]], Tags: d[2], Updates: updChoices[d[3]], Bounds: d[4] * 16})
+		e, v := b.Way(xmlgen.WayCfg{Attrs: uint(d[0]), Nds: ndChoices[d[1]], Tags: d[2], Updates: updChoices[d[3]], Bounds: d[4] * 16, Arrange: d[6]})
 		return single(b, obj(xmlgen.KindWay, e, v), styles8[d[5]])
 	})
 	add("way-nd", []int{32, 32, ns}, func(d []int, _ int) doc {
@@ -159,9 +160,9 @@ func families(quick bool) []family {
 		e, v := b.Way(xmlgen.WayCfg{Attrs: 1, Nds: []uint{1, 1}, Updates: pair(d)})
 		return single(b, obj(xmlgen.KindWay, e, v), styles8[0])
 	})
-	add("relation", []int{1 << xmlgen.NumWayAttrs, 4, 2, 3, 2, ns}, func(d []int, _ int) doc {
+	add("relation", []int{1 << xmlgen.NumWayAttrs, 4, 2, 3, 2, ns, na}, func(d []int, _ int) doc {
 		b := xmlgen.NewB(d[0])
-		e, v := b.Relation(xmlgen.RelationCfg{Attrs: uint(d[0]), Members: memChoices[d[1]], Tags: d[2], Updates: updChoices[d[3]], Bounds: d[4] * 16})
+		e, v := b.Relation(xmlgen.RelationCfg{Attrs: uint(d[0]), Members: memChoices[d[1]], Tags: d[2], Updates: updChoices[d[3]], Bounds: d[4] * 16, Arrange: d[6]})
 		return single(b, obj(xmlgen.KindRelation, e, v), styles8[d[5]])
 	})
 	add("relation-member", []int{1 << xmlgen.NumMemberAttrs, 3, 2, 2, ns}, func(d []int, _ int) doc {
@@ -742,6 +743,9 @@ func main() {
 		if r.ReplayPath != "" {
 			var c Case
 			r.LoadReplay(&c)
+			if c.Tier != "" {
+				fs = families(c.Tier == "quick")
+			}
 			for _, f := range fs {
 				if f.name == c.Family {
 					if c.Index < 0 || c.Index >= f.n {
@@ -768,7 +772,7 @@ func main() {
 			for starts[k] > i {
 				k--
 			}
-			c := Case{Family: fs[k].name, Index: i - starts[k]}
+			c := Case{Family: fs[k].name, Index: i - starts[k], Tier: r.Tier}
 			checkDoc(r, c, fs[k].gen(c.Index))
 		})
 	})
